@@ -46,7 +46,12 @@ def make_item(seed, k, variant=None):
         else:
             e = universe.make_spec(rng, kind=rng.choice(kinds))
         earlier.append(e)
-    return {"k": k, "opt": opt, "cfg": cfg, "final": final, "earlier": earlier, "stopkind": stopkind}
+    cfg0 = None
+    if rng.random() < 0.3:      # the earlier runs used another configuration; set_config_parameters(cfg) precedes the judged call
+        c0, _ = universe.make_config(rng, opt, perturbed=True, max_cycles=rng.choice([2, 4, 6]))
+        if c0 != cfg:
+            cfg0 = c0
+    return {"k": k, "opt": opt, "cfg": cfg, "cfg0": cfg0, "final": final, "earlier": earlier, "stopkind": stopkind}
 
 
 def work(item, opts):
@@ -56,16 +61,18 @@ def work(item, opts):
     rid = f"c08-{os.getpid()}-{item['k']}"
     out = {"k": item["k"], "opt": item["opt"], "viol": [], "earlier_status": [], "stopped_by": []}
     try:
-        used = cls(Cfg(**item["cfg"]))
+        used = cls(Cfg(**(item.get("cfg0") or item["cfg"])))
         for j, e in enumerate(item["earlier"]):
             st, payload = optimize_plain(used, build(e, rid + f"-e{j}"), mode="serial", workers=2)
             out["earlier_status"].append(st)
             if st == "ok":
                 n = len(payload.rates)
-                out["stopped_by"].append("max_cycles" if n >= item["cfg"]["max_cycles"] else "criterion")
+                out["stopped_by"].append("max_cycles" if n >= (item.get("cfg0") or item["cfg"])["max_cycles"] else "criterion")
             if st == "timeout":
                 out["skip"] = "timeout"
                 return out
+        if item.get("cfg0"):
+            used.set_config_parameters(json.loads(json.dumps(item["cfg"])))
         fresh = cls(Cfg(**item["cfg"]))
         # oracle 2: arm the fields in which the used instance differs from a fresh one
         a = canon(vars(used))
